@@ -80,6 +80,13 @@ def normDoc (d : DocD) : DocD :=
   { d with campaigns := d.campaigns.map normCampaign, flows := d.flows.map normFlow,
            groups := d.groups.map normGroup, triggers := d.triggers.map normTrigger }
 
+/-- the exit a category is connected to by `RouterCategory.from_dict` -/
+def exitOf (exits : List ExitD) (u : Str) : ExitD :=
+  (exits.find? (fun e => e.uuid == u)).getD { uuid := [], dest := none }
+
+def catImage (exits : List ExitD) (c : CategoryD) : CatC :=
+  { uuid := c.uuid, name := c.name, exit := exitOf exits c.exitUuid }
+
 /-! ### what the round trip writes for a valid, ordered document (`shape…`): the input with
 falsy optional values dropped and `destination_uuid` always written -/
 
@@ -165,6 +172,49 @@ abbrev UntypedFields (d : DocD) : Prop := ∀ n ∈ allNodes d, ∀ a ∈ n.acti
 def plainGroup (g : GroupD) : Bool :=
   (dropNull g.query).isNone && (dropNull g.status).isNone && (dropNull g.system).isNone && (dropNull g.count).isNone
 abbrev PlainGroups (d : DocD) : Prop := ∀ g ∈ d.groups, plainGroup g = true
+
+/-! ### re-join order: what the FIRST round trip does to a document that is not in it
+(F-C05-c, F-C05-d): categories of a switch router come back as others ++ [default] ++
+[no-response], the exits of a router node as its categories' exits -/
+
+def reorderRouter : RouterD → RouterD
+  | .random cats rn => .random cats rn
+  | .switch op cases cats dflt wait rn =>
+    match wait.bind (·.timeout) with
+    | none =>
+      .switch op cases (cats.filter (fun c => c.uuid != dflt) ++ (cats.find? (fun c => c.uuid == dflt)).toList) dflt wait rn
+    | some t =>
+      .switch op cases (cats.filter (fun c => c.uuid != dflt && c.uuid != t.categoryUuid)
+        ++ (cats.find? (fun c => c.uuid == dflt)).toList ++ (cats.find? (fun c => c.uuid == t.categoryUuid)).toList) dflt wait rn
+
+def reorderNode (n : NodeD) : NodeD :=
+  match n.router with
+  | none => n
+  | some r =>
+    { n with router := some (reorderRouter r),
+             exits := (routerCatsD (reorderRouter r)).map (fun c => exitOf n.exits c.exitUuid) }
+
+def reorderDoc (d : DocD) : DocD :=
+  { d with flows := d.flows.map (fun f => { f with nodes := f.nodes.map reorderNode }) }
+
+/-- what the loader needs of the categories of a router node, besides `validNode`: every
+category names an exit of the node, no two categories share an exit, the default category
+and the timeout category exist and differ -/
+def catsWired (n : NodeD) : Bool :=
+  match n.router with
+  | none => true
+  | some r =>
+    (routerCatsD r).all (fun c => (n.exits.map (·.uuid)).contains c.exitUuid)
+      && decide (((routerCatsD r).map (·.exitUuid)).Nodup)
+      && (match r with
+          | .random .. => true
+          | .switch _ _ cats dflt wait _ =>
+            (cats.map (·.uuid)).contains dflt
+              && (match wait.bind (·.timeout) with
+                  | none => true
+                  | some t => (cats.map (·.uuid)).contains t.categoryUuid && t.categoryUuid != dflt))
+
+abbrev CatsWired (d : DocD) : Prop := ∀ n ∈ allNodes d, catsWired n = true
 
 /-! ### `Valid`: the export schema (what RapidPro writes) -/
 
